@@ -153,7 +153,12 @@ func combinedUUID(op string, lo *storage.LookupOptions, uuids ...uuid.UUID) stri
 	for _, id := range uuids {
 		ss = append(ss, id.String())
 	}
-	return fmt.Sprintf("%s:%s:%s", op, lo.UUID().String(), strings.Join(ss, ":"))
+	key := fmt.Sprintf("%s:%s:%s", op, lo.UUID().String(), strings.Join(ss, ":"))
+	if lo.Offset != 0 {
+		// LookupOptions.UUID does not cover the page offset.
+		key = fmt.Sprintf("%s:offset=%d", key, lo.Offset)
+	}
+	return key
 }
 
 // Objects pushes to the provided channel the objects for the given object and
